@@ -83,6 +83,11 @@ submit_snow_v_aead_job(IMB_MGR *state, IMB_JOB *job)
                 hkey_endpad[1].high = 0;
                 job = SUBMIT_JOB_SNOW_V_AEAD(job);
         }
+#ifdef SAFE_DATA
+        /* hash key H, end pad and the expanded hash key are key-stream derived secrets */
+        imb_clear_mem(hkey_endpad, sizeof(hkey_endpad));
+        imb_clear_mem(&gdata_key, sizeof(gdata_key));
+#endif
         return job;
 }
 
